@@ -37,3 +37,12 @@ bool expr_value_sync(const UTAP::expression_t& e, int& v)
 bool expr_has_symbol(const UTAP::expression_t& e) { return e.data && e.data->symbol != UTAP::symbol_t(); }
 UTAP::symbol_t expr_symbol_raw(const UTAP::expression_t& e) { return e.data ? e.data->symbol : UTAP::symbol_t(); }
 }  // namespace utapv
+
+namespace utapv {
+// perturbation helpers for the C19 laws (operate on a private deep clone only)
+void expr_set_kind(UTAP::expression_t& e, int kind) { e.data->kind = (UTAP::Constants::kind_t)kind; }
+void expr_set_child(UTAP::expression_t& e, size_t i, const UTAP::expression_t& c) { e.data->sub[i] = c; }
+void expr_set_int(UTAP::expression_t& e, int32_t v) { e.data->value = v; }
+void expr_set_double(UTAP::expression_t& e, double v) { e.data->value = v; }
+void expr_set_symbol(UTAP::expression_t& e, UTAP::symbol_t s) { e.data->symbol = s; }
+}  // namespace utapv
